@@ -342,3 +342,27 @@ func wfRangeReq(o *ObjectRangeRequest) bool {
 //@ ensures [C14]     more:   imp(ret1 == nil && ret0.IsTruncated, ex(j, 0, len(M.parts), M.parts[j] != nil && all(k, 0, len(R), R[k].PartNumber != j) && j > marker))
 //@ ensures [C14]     same:   unchanged()
 //@ ensures           locks:  u.mu == 0
+
+// ---- C17: bucket names -----------------------------------------------------------
+// The statement of the property as regular languages: labels of at least three
+// characters from [a-z0-9-] that begin and end alphanumeric, separated by single
+// dots; 3..63 characters overall; not an IPv4 address.
+
+//@ pred specIPv4(s) = inre(s, "^(0|[1-9][0-9]?|1[0-9][0-9]|2[0-4][0-9]|25[0-5])\\.(0|[1-9][0-9]?|1[0-9][0-9]|2[0-4][0-9]|25[0-5])\\.(0|[1-9][0-9]?|1[0-9][0-9]|2[0-4][0-9]|25[0-5])\\.(0|[1-9][0-9]?|1[0-9][0-9]|2[0-4][0-9]|25[0-5])$")
+//@ pred specBucketName(s) = 3 <= len(s) && len(s) <= 63 &&
+//@     inre(s, "^[a-z0-9][a-z0-9-]+[a-z0-9](\\.[a-z0-9][a-z0-9-]+[a-z0-9])*$") && !specIPv4(s)
+
+//@ func ValidateBucketName
+//@ props C17 C09
+//@ theory strings
+//@ loop 1 assume     split1: imp(inre(name, "^[a-z0-9][a-z0-9-]+[a-z0-9](\\.[a-z0-9][a-z0-9-]+[a-z0-9])*$"),
+//@                             all(i, 0, len(labels), inre(labels[i], "^[a-z0-9]([a-z0-9\\.-]+)[a-z0-9]$")))
+//@                           because strings.Split(name, ".") returns the maximal dot-free pieces of name: if name is a dot-separated sequence of label matches, every piece is one of them (validated by bounded enumeration against the real strings.Split and regexp)
+//@ loop 1 assume     split2: imp(all(i, 0, len(labels), inre(labels[i], "^[a-z0-9]([a-z0-9\\.-]+)[a-z0-9]$")),
+//@                             inre(name, "^[a-z0-9][a-z0-9-]+[a-z0-9](\\.[a-z0-9][a-z0-9-]+[a-z0-9])*$"))
+//@                           because the pieces are dot-free, so a piece matching the label pattern matches its dot-free form, and name is the pieces joined by single dots (validated by bounded enumeration)
+//@ loop 1 invariant  idx:    -1 <= rangeindex && rangeindex < len(labels)
+//@ loop 1 invariant  seen:   all(i, 0, rangeindex + 1, inre(labels[i], "^[a-z0-9]([a-z0-9\\.-]+)[a-z0-9]$"))
+//@ ensures [C17]     exact:  iff(ret0 == nil, specBucketName(name))
+//@ ensures [C17]     code:   imp(ret0 != nil, errcode(ret0) == ErrInvalidBucketName)
+//@ modifies nothing
